@@ -11,6 +11,7 @@ from .. import gen, ops, observe
 from ..model import Ref
 from ..core import Violation
 from . import c01
+from ..cli import SUB
 
 ID = "C13"
 LEVEL = "exploration"
@@ -51,6 +52,7 @@ def cases(draw, tier):
         case["method"] = draw(st.sampled_from(RANKS))
     if what == "cli":
         case["mode"] = draw(st.sampled_from(["-r", "-p"]))
+        case["sub"] = draw(st.sampled_from(SUB))
         spec["obs_md"] = spec["samp_md"] = None
         spec["type"] = "OTU table"
     return case
@@ -291,12 +293,13 @@ def check(case, rec):
             inp, out = os.path.join(d, "in.biom"), os.path.join(d, "out.biom")
             with h5py.File(inp, "w") as f:
                 t.to_hdf5(f, "vf")
-            try:
-                normalize_table.main(["-i", inp, "-o", out, mode, "-a", axis],
-                                     standalone_mode=False)
-            except SystemExit as e:
-                if e.code not in (0, None):
-                    bad("cli-exit", "normalize-table exited %r" % (e.code,))
+            from ..cli import invoke
+            rc, out_ = invoke(normalize_table, "normalize-table",
+                              ["-i", inp, "-o", out, mode, "-a", axis],
+                              case.get("sub", False))
+            if rc != 0:
+                bad("cli-exit", "normalize-table exited %r: %s" %
+                    (rc, out_[-300:]))
             got = observe.snapshot(load_table(out))
         if mode == "-p":
             want = [[1.0 if x != 0 else 0.0 for x in row] for row in ref.rows]
@@ -314,3 +317,13 @@ def check(case, rec):
         rec.nt(len(ref.obs) != len(ref.samp) and has_zero and has_nz)
         return
     raise ValueError(what)
+
+
+REGRESSIONS = [
+    {"table": {"obs": ["o1", "o2"], "samp": ["s1", "s2", "s3"],
+               "rows": [[1.0, 0.0, 3.0], [2.0, 2.0, 0.0]], "obs_md": None,
+               "samp_md": None, "type": "OTU table", "form": "dense",
+               "history": []},
+     "what": "cli", "axis": "observation", "inplace": True, "mode": "-r",
+     "sub": True},
+]
